@@ -26,6 +26,8 @@ import (
 	"sync"
 	"sync/atomic"
 	"unsafe"
+
+	"github.com/tochemey/goakt/v4/internal/verifhook"
 )
 
 // senderBox wraps a per‑sender mailbox and an active flag to avoid duplicate
@@ -62,7 +64,9 @@ func (as *activeSenders) enqueue(sq *senderBox) {
 	n := as.pool.Get().(*senderNode)
 	n.value.Store(sq)
 	atomic.StorePointer(&n.next, nil)
+	verifhook.At("fair.act.swap", as, 0, 0)
 	prev := as.tail.Swap(n)
+	verifhook.At("fair.act.link", as, 0, 0)
 	atomic.StorePointer(&prev.next, unsafe.Pointer(n))
 }
 
@@ -165,8 +169,10 @@ func (m *UnboundedFairMailbox) Enqueue(msg *ReceiveContext) error {
 	_ = sq.mailbox.Enqueue(msg)
 	atomic.AddInt64(&m.length, 1)
 
+	verifhook.At("fair.enq.pending", m, 0, 0)
 	if pending := atomic.AddInt64(&sq.pending, 1); pending == 1 {
 		// transition from empty -> non-empty, try to activate sender
+		verifhook.At("fair.enq.cas", m, 0, 0)
 		if sq.active.CompareAndSwap(false, true) {
 			m.active.enqueue(sq)
 		}
@@ -184,6 +190,7 @@ func (m *UnboundedFairMailbox) Enqueue(msg *ReceiveContext) error {
 // Single consumer
 // - Must be called by exactly one goroutine (the actor’s receiver loop).
 func (m *UnboundedFairMailbox) Dequeue() (msg *ReceiveContext) {
+	verifhook.At("fair.deq", m, 0, 0)
 	sq := m.active.dequeue()
 	if sq == nil {
 		return nil
@@ -192,11 +199,13 @@ func (m *UnboundedFairMailbox) Dequeue() (msg *ReceiveContext) {
 	msg = sq.mailbox.Dequeue()
 	if msg == nil {
 		// per‑sender queue was drained concurrently; mark inactive
+		verifhook.At("fair.deq.deactivate", m, 0, 0)
 		sq.active.Store(false)
 		return
 	}
 
 	atomic.AddInt64(&m.length, -1)
+	verifhook.At("fair.deq.pending", m, 0, 0)
 	remaining := atomic.AddInt64(&sq.pending, -1)
 	m.finalizeSender(sq, remaining)
 	return
@@ -212,7 +221,9 @@ func (m *UnboundedFairMailbox) finalizeSender(sq *senderBox, remaining int64) {
 		atomic.StoreInt64(&sq.pending, 0)
 	}
 
+	verifhook.At("fair.fin.store", m, 0, 0)
 	sq.active.Store(false)
+	verifhook.At("fair.fin.recheck", m, 0, 0)
 	if atomic.LoadInt64(&sq.pending) > 0 && sq.active.CompareAndSwap(false, true) {
 		m.active.enqueue(sq)
 	}
@@ -224,6 +235,7 @@ func (m *UnboundedFairMailbox) finalizeSender(sq *senderBox, remaining int64) {
 // concurrency. It is intended for observability and fast checks, not for hard
 // synchronization.
 func (m *UnboundedFairMailbox) IsEmpty() bool {
+	verifhook.At("fair.isempty", m, 0, 0)
 	return atomic.LoadInt64(&m.length) == 0
 }
 
